@@ -51,6 +51,100 @@ def off(v, c):
     return ("bin", "Add" if c > 0 else "Sub", var(v), lit(abs(c)))
 
 
+# ---- array sections (harness-only extension: not in coq/Fort/Syntax.v).  A subscript may be
+# ("rng", lo, hi, n): the section lo:hi of constant extent n (lo, hi literals or loopvar +- c).
+def rng(lo, n):
+    """section of n elements starting at expression lo"""
+    if lo[0] == "lit":
+        return ("rng", lo, lit(lo[1] + n - 1), n)
+    base, c = (lo[2][1], lo[3][1] * (1 if lo[1] == "Add" else -1)) if lo[0] == "bin" else (lo[1], 0)
+    return ("rng", lo, off(base, c + n - 1), n)
+
+
+def _map_tree(x, f):
+    """rebuild a tuple/list tree bottom-up, applying f to every tuple"""
+    if isinstance(x, list):
+        return [_map_tree(q, f) for q in x]
+    if isinstance(x, tuple):
+        return f(tuple(_map_tree(q, f) for q in x))
+    return x
+
+
+def has_sections(x):
+    if isinstance(x, (list, tuple)):
+        if isinstance(x, tuple) and x and x[0] == "rng":
+            return True
+        return any(has_sections(q) for q in x)
+    return False
+
+
+def text_form(stmts):
+    """sections printed as lo:hi (a pseudo variable named 'lo:hi' for vlib.minifort.to_fortran)"""
+    def f(t):
+        if t and t[0] == "rng":
+            return ("var", "%s:%s" % (mf.expr_to_fortran(t[1]), mf.expr_to_fortran(t[2])))
+        return t
+    return _map_tree(stmts, f)
+
+
+def _elem(x, k):
+    """element k of every section inside x"""
+    def f(t):
+        if t and t[0] == "rng":
+            lo = t[1]
+            if lo[0] == "lit":
+                return lit(lo[1] + k)
+            return lo if k == 0 else ("bin", "Add", lo, lit(k))
+        return t
+    return _map_tree(x, f)
+
+
+def _extent(x):
+    if isinstance(x, (list, tuple)):
+        if isinstance(x, tuple) and x and x[0] == "rng":
+            return x[3]
+        for q in x:
+            n = _extent(q)
+            if n:
+                return n
+    return 0
+
+
+def desugar(stmts, temps):
+    """Fortran array-assignment semantics with scalar statements: every element of the right-hand side
+    is evaluated into a temporary (zt<k>, recorded in `temps`), then the elements are stored."""
+    out = []
+    for st in stmts:
+        k = st[0]
+        if k == "assign" and has_sections(st):
+            n = _extent(st)
+            for q in range(n):
+                tv = "zt%d" % q
+                if tv not in temps:
+                    temps.append(tv)
+                out.append(("assign", tv, [], _elem(st[3], q)))
+            for q in range(n):
+                out.append(("assign", st[1], _elem(st[2], q), var("zt%d" % q)))
+        elif k == "if":
+            out.append(("if", st[1], desugar(st[2], temps), desugar(st[3], temps)))
+        elif k == "do":
+            out.append(("do", st[1], st[2], st[3], st[4], desugar(st[5], temps)))
+        else:
+            out.append(st)
+    return out
+
+
+def section_arrays(x, acc=None):
+    """names of the arrays accessed through a section"""
+    acc = set() if acc is None else acc
+    if isinstance(x, tuple) and x and x[0] in ("idx", "assign") and any(isinstance(q, tuple) and q and q[0] == "rng" for q in x[2]):
+        acc.add(x[1])
+    if isinstance(x, (list, tuple)):
+        for q in x:
+            section_arrays(q, acc)
+    return acc
+
+
 class LoopGen:
     """Loops over i with scalars written before read / read before written / conditionally written /
     written once, arrays with independent and dependent subscripts, inner loops (also guarded or
@@ -58,6 +152,7 @@ class LoopGen:
 
     def __init__(self, rng):
         self.r = rng
+        self.sections = True
 
     def sub1(self, env, role):
         """one subscript; role 'w' (written array) prefers i-based subscripts"""
@@ -116,8 +211,46 @@ class LoopGen:
         return ("bin", r.choice(["Lt", "Gt", "Ge", "Eq", "Ne"]), self.expr(env, 1),
                 lit(r.randint(-1, 2)) if r.random() < 0.6 else self.expr(env, 1))
 
+    def section_ref(self, env, a, lo, n, other):
+        """a(lo:lo+n-1 [, other]) with the section in a random dimension of a 2-D array"""
+        if a in ARR1:
+            return ("idx", a, [rng(lo, n)])
+        return ("idx", a, [rng(lo, n), other] if self.r.random() < 0.7 else [other, rng(lo, n)])
+
+    def section_assign(self, env):
+        """c(lo1:hi1, i+-d) = c(lo2:hi2, i+-e) + ... : identical / overlapping / disjoint literal sections,
+        sections in the loop-variable dimension, 1-D and 2-D"""
+        r = self.r
+        n = r.choice([2, 3, 3])
+        in_loop_dim = r.random() < 0.15
+        lo = off(LOOPVAR, r.choice([0, 1, -1])) if in_loop_dim else lit(r.randint(1, 4))
+        tgt = r.choice(["d", "d", "d", "e", "b", "c"])
+        other = self.sub1(env, "w")
+        lhs = self.section_ref(env, tgt, lo, n, other)
+
+        def leaf():
+            c = r.random()
+            if c < 0.2:
+                return lit(r.randint(1, 3))
+            if c < 0.3:
+                return var(r.choice(env["tmps"] or RO_SCALARS))
+            a = tgt if r.random() < 0.55 else r.choice(["a", "e", "d", "e"])
+            if in_loop_dim:
+                lo2 = off(LOOPVAR, r.choice([0, 0, 1, -1]))
+            else:
+                lo2 = lit(max(1, lo[1] + r.choice([0, 0, 1, -1, n, -n, 2])))
+            oth2 = other if r.random() < 0.4 else off(LOOPVAR, r.choice([0, 0, -1, 1]))
+            if a in ARR2 and tgt in ARR2 and r.random() < 0.8:      # same layout as the target
+                pos = [q[0] == "rng" for q in lhs[2]].index(True)
+                return ("idx", a, [rng(lo2, n), oth2] if pos == 0 else [oth2, rng(lo2, n)])
+            return self.section_ref(env, a, lo2, n, oth2)
+        rhs = leaf() if r.random() < 0.4 else ("bin", r.choice(["Add", "Add", "Sub", "Mul"]), leaf(), leaf())
+        return ("assign", lhs[1], lhs[2], rhs)
+
     def assign(self, env):
         r = self.r
+        if self.sections and r.random() < 0.16:
+            return self.section_assign(env)
         c = r.random()
         if c < 0.55:
             t = self.ref(env, "w", arrays=["b", "b", "c", "d", "d"])
@@ -148,8 +281,9 @@ class LoopGen:
     def block(self, env, depth, n):
         return [self.stmt(env, depth) for _ in range(n)]
 
-    def loop(self):
+    def loop(self, sections=True):
         r = self.r
+        self.sections = sections
         lo, hi, st = r.choice([(lit(1), lit(4), lit(1)), (lit(1), lit(3), lit(1)), (lit(1), var("n"), lit(1)),
                                (lit(2), lit(5), lit(1)), (lit(1), lit(5), lit(2)), (lit(4), lit(1), lit(-1)),
                                (lit(1), lit(5), lit(1)), (lit(1), var("n"), lit(1)), (lit(1), lit(6), lit(1))])
@@ -202,6 +336,20 @@ SHAPES = [
     ("const-subscript-write", _do([("assign", "b", [lit(3)], A_I)])),
     ("index-scalar", _do([("assign", "t", [], A_I), ("assign", "b", [("bin", "Add", var("i"), var("t"))], var("i"))])),
     ("div-subscript", _do([("assign", "b", [("bin", "Div", var("i"), lit(2))], var("i"))])),
+    # array sections (harness-only): carried through overlapping / identical / disjoint sections, same column,
+    # backward overlap inside one iteration (needs evaluate-all-then-store), section in the loop dimension
+    ("section-overlap-carried", _do([("assign", "d", [rng(lit(2), 3), var("i")],
+                                      ("bin", "Add", ("idx", "d", [rng(lit(3), 3), off("i", -1)]), lit(1)))], lo=2, hi=5)),
+    ("section-identical-carried", _do([("assign", "d", [rng(lit(2), 3), var("i")],
+                                        ("bin", "Add", ("idx", "d", [rng(lit(2), 3), off("i", -1)]), lit(1)))], lo=2, hi=5)),
+    ("section-disjoint-carried", _do([("assign", "d", [rng(lit(1), 2), var("i")], ("idx", "d", [rng(lit(4), 2), off("i", -1)]))], lo=2, hi=5)),
+    ("section-same-column-backward", _do([("assign", "d", [rng(lit(3), 3), var("i")],
+                                           ("bin", "Mul", ("idx", "d", [rng(lit(2), 3), var("i")]), lit(2)))])),
+    ("section-row", _do([("assign", "d", [var("i"), rng(lit(2), 3)], ("idx", "e", [off("i", 1), rng(lit(1), 3)]))])),
+    ("section-loop-dimension", _do([("assign", "b", [rng(var("i"), 2)], ("idx", "a", [rng(var("i"), 2)]))])),
+    ("section-1d-overlap-other-array", _do([("assign", "t", [], A_I),
+                                             ("assign", "d", [rng(lit(1), 3), var("i")],
+                                              ("bin", "Add", ("idx", "a", [rng(lit(2), 3)]), var("t")))])),
 ]
 
 
@@ -215,7 +363,7 @@ class Impl:
 
     def parse(self, stmts):
         from psyclone.psyir.nodes import Routine
-        txt = mf.to_fortran("sub", stmts, DECLS)
+        txt = mf.to_fortran("sub", text_form(stmts), DECLS)
         psy = self.reader.psyir_from_source(txt)
         return psy, psy.walk(Routine)[0], txt
 
@@ -239,7 +387,17 @@ class Impl:
         psy, routine, txt = self.parse([loop])
         out["source"] = txt
         node = routine.walk(Loop)[0]
-        out["seen"] = mf.stmt_from_psyir(node)
+        out["src"] = loop
+        out["temps"] = []
+        if has_sections(loop):
+            # array sections are outside coq/Fort/Syntax.v: no model comparison; the search runs the desugared body
+            out["seen"] = None
+            out["sem"] = desugar([loop], out["temps"])[0]
+            out["section_arrays"] = sorted(section_arrays(loop))
+        else:
+            out["seen"] = mf.stmt_from_psyir(node)
+            out["sem"] = out["seen"]
+            out["section_arrays"] = []
         try:
             trans().apply(node)
             out["accepted"] = True
@@ -248,9 +406,11 @@ class Impl:
             msg = str(e.value) if hasattr(e, "value") else str(e)
             m = re.search(r"(read first|only written once|write-write race|are dependent|CodeBlock|Return)", msg)
             out["why"] = m.group(1) if m else msg.replace("\n", " ")[:80]
-        except NotImplementedError as e:
+        except Exception as e:      # pylint: disable=broad-except
+            # validate crashed (e.g. TypeError in SymbolicMaths.never_equal when a section meets a scalar
+            # subscript): the loop is not accepted, the property says nothing; counted in the histogram
             out["accepted"] = False
-            out["why"] = "NotImplementedError"
+            out["why"] = "internal error " + type(e).__name__
         if out["accepted"]:
             d = routine.walk(OMPParallelDoDirective)[0]
             p, f, ns = d.infer_sharing_attributes()
@@ -279,7 +439,7 @@ class Impl:
             d2 = routine2.walk(OMPParallelDoDirective)[0]
             p, f, ns = d2.infer_sharing_attributes()
             out["forced"] = (self.names(p), self.names(f), self.names(ns))
-        except (TransformationError, NotImplementedError) as e:
+        except Exception as e:      # pylint: disable=broad-except
             out["forced"] = None
         return out
 
@@ -576,7 +736,7 @@ def array_shape(loop, a, privatised):
     return "affine-subscripts"
 
 
-def diagnose(loop, vals, private, fprivate):
+def diagnose(loop, vals, private, fprivate, sect_arrays=()):
     """which variables carry values between iterations (or expose poisoned copies) -> finding keys"""
     x = loop[1]
     fps = per_iteration_footprints(loop, vals)
@@ -611,7 +771,8 @@ def diagnose(loop, vals, private, fprivate):
                     else:
                         keys.setdefault("parallel_loop/shared-scalar-carried", v)
                 else:
-                    keys.setdefault("dep_tools/array-dependence-missed/" + array_shape(loop, v, P - {x}), v)
+                    keys.setdefault("dep_tools/array-dependence-missed/" +
+                                    ("array-section" if v in sect_arrays else array_shape(loop, v, P - {x})), v)
     return keys
 
 
@@ -653,8 +814,9 @@ Definition run_job (j : job) : bool :=
 def run(ctx):
     ctx.cov["rule"] = (
         "loops `do i` over integer scalars/arrays: body of 1-4 statements from {array assignment (subscripts i, i+-c, "
-        "const, n, inner var, index scalar, 2*i, i+n, i+tmp, i/2; 1-D and 2-D), scalar assignment, IF/ELSE, inner DO (literal or "
-        "variable trip count)}; bounds literal / n, steps 1, 2, -1; 17 targeted shapes first; each loop goes through "
+        "const, n, inner var, index scalar, 2*i, i+n, i+tmp, i/2; 1-D and 2-D; array-section assignments lo:hi with "
+        "identical / overlapping / disjoint literal sections or sections in the loop dimension, harness-only), scalar assignment, IF/ELSE, inner DO (literal or "
+        "variable trip count)}; bounds literal / n, steps 1, 2, -1; 24 targeted shapes first; each loop goes through "
         "OMPParallelLoopTrans or OMPLoopTrans(paralleldo) without force. non-trivial = accepted and code generated; "
         "distinct = canonical loop text.  Search: stores x realisable schedules (all interleavings for <=5 iterations).")
     ctx.cov["trusted_base"] = core.BASE_TRUST + [
@@ -687,7 +849,7 @@ def run(ctx):
     # ---- region form (infer only)
     regions = []
     for _ in range(ctx.pick(30, 200)):
-        got = impl.run_region(gen.pre(), gen.loop())
+        got = impl.run_region(gen.pre(), gen.loop(sections=False))
         if got:
             regions.append(got)
     ctx.log("ran implementation on %d loops + %d regions" % (len(results), len(regions)))
@@ -700,6 +862,9 @@ def run(ctx):
         tags.append((kind, ref))
     infer_src = []
     for ri, res in enumerate(results):
+        ctx.hist("loop_kind", "with array sections (harness-only)" if res["seen"] is None else "scalar subscripts (model + harness)")
+        if res["seen"] is None:
+            continue
         nm = names_for([res["seen"]])
         body = mf.stmts_to_coq([res["seen"]], nm)
         if res["accepted"]:
@@ -722,12 +887,15 @@ def run(ctx):
         add("JInfer", "(%s, (%s, %s, %s))" % (mf.stmts_to_coq(body, nm), nlist(p, nm), nlist(f, nm), nlist(ns, nm)), len(infer_src) - 1)
         ctx.hist("region_clauses", "p%d f%d s%d" % (len(p), len(f), len(ns)))
     acc_idx = [i for i, r in enumerate(results) if r["accepted"] and r.get("clauses") is not None]
+    section_pos = {pos for pos, i in enumerate(acc_idx) if results[i]["seen"] is None}
     for pos, i in enumerate(acc_idx):
         res = results[i]
+        if res["seen"] is None:
+            continue
         nm = names_for([res["seen"]], res["clauses"][0] + res["clauses"][1])
         add("JSafe", "(%s, (%s, %s))" % (mf.stmt_to_coq(res["seen"], nm), nlist(res["clauses"][0], nm), nlist(res["clauses"][1], nm)), pos)
     stores = make_stores(ctx.rng("stores"), ctx.pick(6, 10))
-    xv_n = add_xv_jobs(ctx, [results[i] for i in acc_idx], stores, add)
+    xv_n = add_xv_jobs(ctx, [results[i] for i in acc_idx if results[i]["seen"] is not None], stores, add)
     failing = ctx.coq_eval_failing(HEADER + JOBS, "job", "run_job", jobs, shard=ctx.pick(1 + len(jobs) // 2, 500))
     bad_infer, bad_verdict, neq_verdict, unknown_verdict, unsafe, xv_bad = [], [], [], [], set(), []
     for k in failing:
@@ -736,6 +904,7 @@ def run(ctx):
          "JXv": xv_bad}.get(kind, []).append(ref)
         if kind == "JSafe":
             unsafe.add(ref)
+    unsafe |= section_pos          # loops with array sections are never covered by the theorem
     n_infer = sum(1 for t in tags if t[0] == "JInfer")
     ctx.log("infer cases=%d differ=%d | verdict cases=%d impl-accepts-model-rejects=%d differ=%d outside-class=%d | "
             "accepted=%d gap=%d | omp_run vs Coq omp_exec: %d cases %d differ"
@@ -754,13 +923,14 @@ def run(ctx):
     n_exec = 0
     for pos, i in enumerate(acc_idx):
         res = results[i]
-        loop = res["seen"]
+        loop = res["sem"]
         private, fprivate = res["clauses"]
-        if (sorted(private), sorted(fprivate)) != (sorted(res["infer"][0]), sorted(res["infer"][1])):
+        private = list(private) + res["temps"]      # compiler temporaries of desugared section assignments
+        if (sorted(res["clauses"][0]), sorted(fprivate)) != (sorted(res["infer"][0]), sorted(res["infer"][1])):
             clause_text_mismatch.append(i)
         ctx.count(res["source"], True)
-        ctx.hist("accepted_clauses", "private%d firstprivate%d" % (len(private) - 1, len(fprivate)))
-        ctx.hist("bucket", "gap" if pos in unsafe else "safe")
+        ctx.hist("accepted_clauses", "private%d firstprivate%d" % (len(res["clauses"][0]) - 1, len(fprivate)))
+        ctx.hist("bucket", "sections (search only)" if pos in section_pos else "gap" if pos in unsafe else "safe")
         found = None
         for si, vals in enumerate(stores):
             ser = mf.interp([loop], vals, BNDS)
@@ -785,11 +955,11 @@ def run(ctx):
                 break
         if found:
             si, sched, junk, diff = found
-            keys = diagnose(loop, stores[si], private, fprivate)
+            keys = diagnose(loop, stores[si], private, fprivate, res["section_arrays"])
             failures.append((i, pos, keys, {
                 "source": res["source"], "transformation": res["variant"], "directive": res.get("directive_line"),
                 "store": {"%s%s" % (k[0], list(k[1]) if k[1] else ""): v for k, v in sorted(stores[si].items())
-                          if k[0] in mf.all_names([loop])},
+                          if k[0] in mf.all_names([loop]) and not (k[1] and any(not (-1 <= q <= 8) for q in k[1]))},
                 "schedule_thread_iteration": sched, "private_junk": junk,
                 "differences_loc_serial_omp": [[str(d[0]), d[1], d[2]] for d in diff],
                 "replay": "apply %s to the loop of `source` (no options), write with FortranWriter; run the loop body "
@@ -904,7 +1074,7 @@ def gfortran_runs(ctx, impl, accepted, stores):
     jobs = []
     skipped_oob = 0
     for j, res in enumerate(accepted[:ctx.pick(12, 50)]):
-        loop = res["seen"]
+        loop = res["sem"]
         vals = stores[j % len(stores)]
         ser = mf.interp([loop], vals, BNDS)
         if ser[0] != "ok":
@@ -912,7 +1082,7 @@ def gfortran_runs(ctx, impl, accepted, stores):
         if any(ev[0] in ("R", "W") and any(not (LB <= q <= UB) for q in ev[1][1]) for ev in ser[2]):
             skipped_oob += 1     # an index scalar leaves the declared bounds: undefined for the compiled program
             continue
-        psy, routine, _ = impl.parse([loop])
+        psy, routine, _ = impl.parse([res["src"]])
         OMPParallelLoopTrans(omp_schedule="runtime").apply(routine.walk(Loop)[0])
         text = impl.writer(psy)
         body = [ln for ln in text.split("\n")]
@@ -923,7 +1093,7 @@ def gfortran_runs(ctx, impl, accepted, stores):
         for v, ty, bs in DECLS:
             prog.append("  %s%s :: %s" % (ty, ", dimension(%s)" % ", ".join("%d:%d" % b for b in bs) if bs else "", v))
         prog.append("  integer :: q1, q2")
-        used = mf.all_names([loop])
+        used = mf.all_names([loop]) | set(res["section_arrays"])
         for v, ty, bs in DECLS:
             if not bs:
                 prog.append("  %s = %d" % (v, vals.get((v, ()), 0)))
